@@ -11,6 +11,7 @@ FilesTwo   == { <<F(FALSE, 2, FALSE), F(FALSE, 1, TRUE)>>, <<F(FALSE, 3, TRUE)>>
 CfgClean == [files : FilesSmall \cup FilesTwo, proto : 1..4, upload : BOOLEAN, confirm : BOOLEAN]
 CfgFault == [files : FilesSmall, proto : {1, 2, 4}, upload : BOOLEAN, confirm : {TRUE}]
 CfgFaultBig == [files : FilesSmall \cup FilesTwo, proto : 1..4, upload : BOOLEAN, confirm : {TRUE}]
+CfgPause == [files : FilesSmall \cup {<<F(FALSE, 2, FALSE), F(FALSE, 1, TRUE)>>}, proto : {3, 4}, upload : BOOLEAN, confirm : {TRUE}]
 AllKinds == {"del", "dup", "dmg", "trunc"}
 BothRoles == {"C", "V"}
 NoRoles == {}
